@@ -61,26 +61,24 @@ func genIdent(typ string, n int) Ident {
 // Keys returns a pool of identities per key type (4 each, RSA 3), built once.
 func Keys() map[string][]Ident {
 	keyPoolOnce.Do(func() {
-		keyPool = map[string][]Ident{}
+		pool := map[string][]Ident{}
 		var wg sync.WaitGroup
-		var mu sync.Mutex
 		for _, t := range KeyTypes {
 			n := 4
 			if t == "rsa" {
 				n = 3
 			}
-			keyPool[t] = make([]Ident, n)
+			sl := make([]Ident, n)
+			pool[t] = sl
 			for k := 0; k < n; k++ {
 				wg.Add(1)
-				go func(t string, k int) {
+				go func(t string, k int, sl []Ident) {
 					defer wg.Done()
-					id := genIdent(t, k)
-					mu.Lock()
-					keyPool[t][k] = id
-					mu.Unlock()
-				}(t, k)
+					sl[k] = genIdent(t, k) // each goroutine writes its own element; the map is not touched
+				}(t, k, sl)
 			}
 		}
+		keyPool = pool
 		wg.Wait()
 	})
 	return keyPool
